@@ -16,8 +16,20 @@ def observe(case, warmup=0):
     if warmup:
         # unrelated diagrams built and queried earlier in the same process
         rng = random.Random(warmup)
-        for _ in range(warmup):
-            other = plain.make_sd({"bnet": common.g_compose(rng, extra_max=1) if rng.random() < 0.7 else common.g_mixed(rng, nmax=5)})
+        import re
+        for w in range(warmup):
+            if w % 2 == 0:
+                # a *related* network: same names and wiring, some literals negated
+                txt = "\n".join(
+                    l.split(",", 1)[0] + "," + re.sub(r"(?<![!\w])([A-Za-z_]\w*)", lambda m: ("!" + m.group(1)) if rng.random() < 0.3 and m.group(1) not in ("true", "false") else m.group(1), l.split(",", 1)[1])
+                    for l in case["bnet"].split("\n") if "," in l)
+                other_case = {"bnet": txt}
+            else:
+                other_case = {"bnet": common.g_compose(rng, extra_max=1) if rng.random() < 0.7 else common.g_mixed(rng, nmax=5)}
+            try:
+                other = plain.make_sd(other_case)
+            except Exception:
+                continue
             try:
                 common.guarded(20, other.build)
                 succession_control(other, {other.network.variable_names()[0]: 1})
